@@ -7,6 +7,7 @@ from .vc import Contract, SpecFn
 CONTRACTS = {}
 SPECS = {}
 SPEC_NATIVE = {}
+SPEC_CONSTS = {}
 
 
 def contract(key, **kw):
@@ -24,6 +25,9 @@ def spec(rec=False, ret='any', reads=(), fuel=1):
         fd.decorator_list = []
         SPECS[fn.__name__] = SpecFn(fn.__name__, fd, rec=rec, ret=ret, reads=reads, fuel=fuel)
         SPEC_NATIVE[fn.__name__] = fn
+        for k, v in fn.__globals__.items():
+            if k.isupper() and isinstance(v, (str, int, tuple)) and not k.startswith('_'):
+                SPEC_CONSTS[k] = v
         return fn
     return deco
 
